@@ -189,6 +189,7 @@ class WriteMultipleCoilsRequest(ModbusRequest):
         self.address, count, self.byte_count = struct.unpack('>HHB', data[0:5])
         values = unpack_bitstring(data[5:])
         self.values = values[:count]
+        self._wire_count = count
 
     def execute(self, context):
         ''' Run a write coils request against a datastore
@@ -200,6 +201,8 @@ class WriteMultipleCoilsRequest(ModbusRequest):
         if not (1 <= count <= 0x07b0):
             return self.doException(merror.IllegalValue)
         if (self.byte_count != (count + 7) // 8):
+            return self.doException(merror.IllegalValue)
+        if getattr(self, '_wire_count', count) != count:
             return self.doException(merror.IllegalValue)
         if not context.validate(self.function_code, self.address, count):
             return self.doException(merror.IllegalAddress)
